@@ -171,12 +171,19 @@ async fn history(w: &World, rng: &mut Rng, ep: &Endpoint, dir: Option<&Path>, ru
     let mut objs: Vec<(usize, Doc, bool)> = vec![];
     let mut streams = vec![];
     let mut clock = 10u64;
+    let mut forced: Vec<usize> = vec![];
     let steps = 8 + rng.below(18);
     let world_ns = [w.ns.clone(), w.other_ns[0].clone(), w.other_ns[1].clone()];
     for _ in 0..steps {
         clock += 1;
         iroh_docs::verif::set_clock(clock);
-        let x = rng.below(118);
+        // every now and then: a new author becomes the default and the process dies right away (with or without a
+        // committing read in between) - the window in which the default-author file can name an uncommitted author
+        if forced.is_empty() && dir.is_some() && rng.chance(1, 12) {
+            forced.extend(if rng.chance(1, 3) { vec![0usize, 27, 15, 60] } else { vec![0usize, 15, 60] });
+        }
+        let was_forced = !forced.is_empty();
+        let x = if was_forced { forced.remove(0) } else { rng.below(118) };
         // ---------------- authors
         if x < 6 {
             let r = call!(docs.author_create());
@@ -192,7 +199,7 @@ async fn history(w: &World, rng: &mut Rng, ep: &Endpoint, dir: Option<&Path>, ru
             let r = call!(docs.author_delete(ids.authors[a - 1]));
             evs.push(json!({"ev":"Call","op":"AuthorDelete","a":a,"res":res_of(&r)}));
         } else if x < 21 && !ids.authors.is_empty() {
-            let a = 1 + rng.below(ids.authors.len());
+            let a = if was_forced { ids.authors.len() } else { 1 + rng.below(ids.authors.len()) };
             let r = call!(docs.author_set_default(ids.authors[a - 1]));
             evs.push(json!({"ev":"Call","op":"AuthorSetDefault","a":a,"res":res_of(&r)}));
         } else if x < 24 {
